@@ -857,6 +857,32 @@ func (x *Exec) specAxioms() []*Term {
 		out = append(out, mkForall(bound, mkImplies(mkAnd(guards...), body)))
 	}
 	out = append(out, x.recSpecAxioms()...)
+	out = append(out, x.derivedRefAxioms()...)
+	return out
+}
+
+// derivedRefAxioms: derived locations (elements of struct slices, fields of struct type) are injective in their arguments and
+// lie below every allocated object. Attached (by symbol) to the obligations that mention them.
+func (x *Exec) derivedRefAxioms() []*Term {
+	var names []string
+	for n := range x.derivedUFs {
+		names = append(names, n)
+	}
+	sort.Strings(names)
+	var out []*Term
+	for _, n := range names {
+		if x.derivedUFs[n] == 2 {
+			a, i := mkVar("a!d", SInt), mkVar("i!d", SInt)
+			e := ufApp(&UF{n, []Sort{SInt, SInt}, SInt}, a, i)
+			body := mkAnd(mkEq(ufApp(&UF{n + "_arr", []Sort{SInt}, SInt}, e), a), mkEq(ufApp(&UF{n + "_idx", []Sort{SInt}, SInt}, e), i), mkCmp("<=", e, mkInt(-1000000)))
+			out = append(out, mkForall([]*Term{a, i}, body, e))
+		} else {
+			b := mkVar("b!d", SInt)
+			e := ufApp(&UF{n, []Sort{SInt}, SInt}, b)
+			body := mkAnd(mkEq(ufApp(&UF{n + "_inv", []Sort{SInt}, SInt}, e), b), mkImplies(mkNe(b, mkInt(0)), mkCmp("<=", e, mkInt(-1000000))))
+			out = append(out, mkForall([]*Term{b}, body, e))
+		}
+	}
 	return out
 }
 
